@@ -397,6 +397,15 @@ def unit_readers(prop):
     return unit
 
 
+def unit_torch_wrappers(prop):
+    def unit(tier, known):
+        from contracts import torch_wrappers as C
+        jobs = [("contracts.torch_wrappers", "generate", (prop, w)) for w in C.UNITS]
+        return run_parallel("torch_wrappers", jobs, to_case=C.to_case, replay_module="rtc.c14")
+    unit.__name__ = "torch_wrappers"
+    return unit
+
+
 def unit_stack(prop):
     def unit(tier, known):
         from contracts import post_stack as C
@@ -420,7 +429,7 @@ UNITS = {
     "C20": [unit_circshift("C20"), _lazy("contracts.util_misc", "unit_angular", "C20")],
     "C05": [unit_tri("C05", "init"), unit_tri("C05", "truncated"), unit_fbank("C05", "init"), unit_fbank("C05", "truncated")],
     "C06": [unit_tri("C06", "truncated"), unit_tri("C06", "init"), unit_fbank("C06", "truncated"), unit_fbank("C06", "init")],
-    "C14": [unit_torch_stft("C14")],
+    "C14": [unit_torch_stft("C14"), unit_torch_wrappers("C14"), _lazy("contracts.torch_wrappers", "unit_from_stft", "C14")],
     "C09": [unit_torch_stft("C09")] + [_lazy_list("contracts.cli", "units", "C09", k) for k in range(2)],
     "C10": [_lazy_list("contracts.cli", "units", "C10", k) for k in range(3)],
     "C19": [_scales("C19")],
